@@ -259,29 +259,44 @@ def zipCellsL (g : Cell → Cell → Cell) : List (Arr Cell) → List (Arr Cell)
   | _, _ => []
 end
 
+/-- numpy stretches the right operand along axes of length one (a one-step or one-layer file against a full one); the
+result of `pncbo` must keep the left shape, so only the right operand may be the short one -/
+def bcastOk : List Nat → List Nat → Bool
+  | [], [] => true
+  | a :: as, b :: bs => (a == b || b == 1) && bcastOk as bs
+  | _, _ => false
+
+/-- the right operand stretched to the left shape `sv` (its own shape is `sw`) -/
+def bcast (sv sw : List Nat) (a : Arr Cell) : Arr Cell :=
+  Arr.build sv (fun idx => (Arr.get a (List.zipWith (fun i n => if n == 1 then 0 else i) idx sw)).getD none)
+
+/-- the cells of the right operand as `pncbo` combines them with the left ones -/
+def rightData (f1 f2 : File) (v w : Var) : Arr Cell :=
+  if f1.shapeOf v == f2.shapeOf w then w.data else bcast (f1.shapeOf v) (f2.shapeOf w) w.data
+
 /-- one variable of `f1 <op> f2` -/
-def binopVar (op : Op) (f2 : File) (coords : List String) (v : Var) : Var :=
+def binopVar (op : Op) (f1 f2 : File) (coords : List String) (v : Var) : Var :=
   if coords.contains v.name then v else
   match f2.var? v.name with
   | none => v
   | some w =>
     let attrs := if v.attrs.contains "units" then v.attrs else v.attrs ++ ["units"]
     let attrs := if attrs.contains "fill_value" then attrs else attrs ++ ["fill_value"]
-    { v with data := zipCells (fun a b => op.cell (v.isInt && w.isInt) a b (v.masked || w.masked)) v.data w.data,
+    { v with data := zipCells (fun a b => op.cell (v.isInt && w.isInt) a b (v.masked || w.masked)) v.data (rightData f1 f2 v w),
              attrs := attrs, masked := true }
 
 /-- `f1 <op> f2` (pncbo): coordinate variables and variables missing on the right are copied from
-the left operand -/
+the left operand; a right operand that can be stretched to the left shape is -/
 def binopFile (op : Op) (f1 f2 : File) (coords : List String) : Except String File :=
   if f1.vars.any (fun v => !coords.contains v.name && match f2.var? v.name with
-      | some w => f1.shapeOf v != f2.shapeOf w
+      | some w => f1.shapeOf v != f2.shapeOf w && !bcastOk (f1.shapeOf v) (f2.shapeOf w)
       | none => false) then .error "ValueError"
-  else .ok { f1 with vars := f1.vars.map (binopVar op f2 coords) }
+  else .ok { f1 with vars := f1.vars.map (binopVar op f1 f2 coords) }
 
 /-- predicates of `mask()` (applied in the documented order; all are unions) -/
 structure MaskSpec where
   whereDims : Option (List String)     -- dims of the `where` array (None: no where)
-  whereBits : Arr Cell                 -- 1 = mask, as cells
+  whereBits : Arr Cell                 -- 1 = mask, 2 = the condition itself is masked there, as cells
   greater : Option Rat
   greaterEq : Option Rat
   less : Option Rat
@@ -290,7 +305,7 @@ structure MaskSpec where
 
 /-- does an unmasked value satisfy one of the predicates (or the `where` bit)? -/
 def maskHit (m : MaskSpec) (w : Cell) (x : Rat) : Bool :=
-  (w == some 1)
+  (w == some 1) || (w == some 2)       -- the `where` cell is true, or is itself a masked cell (numpy.ma.masked_where)
     || (match m.greater with | some g => decide (x > g) | none => false)
     || (match m.greaterEq with | some g => decide (x ≥ g) | none => false)
     || (match m.less with | some g => decide (x < g) | none => false)
